@@ -148,6 +148,17 @@ func ctxHarness(rc *RunCtx) {
 		rc.Fault("opid-counter-near-width-boundary")
 		rc.Sample["opid_base"] = b
 	}
+	// a header "is on" a context if either accessor says so (a cached snapshot may disagree with the live map)
+	hasReq := func(c frugal.FContext, k string) bool {
+		_, a := c.RequestHeader(k)
+		_, b := c.RequestHeaders()[k]
+		return a || b
+	}
+	hasResp := func(c frugal.FContext, k string) bool {
+		_, a := c.ResponseHeader(k)
+		_, b := c.ResponseHeaders()[k]
+		return a || b
+	}
 	valN := 0
 	finished := false
 	doneC := make(chan int, nTasks)
@@ -225,11 +236,18 @@ func ctxHarness(rc *RunCtx) {
 						// the clone is private: writing to it must not show in the original
 						c.AddRequestHeader("clone-only", "x")
 						c.AddResponseHeader("clone-only", "x")
-						if _, ok := shared.RequestHeader("clone-only"); ok {
+						if hasReq(shared, "clone-only") {
 							rc.Violate("C17", "clone-aliases-original", "request headers", "a header added to a clone of the shared context is visible on the original")
 						}
-						if _, ok := shared.ResponseHeader("clone-only"); ok {
+						if hasResp(shared, "clone-only") {
 							rc.Violate("C17", "clone-aliases-original", "response headers", "a response header added to a clone is visible on the original")
+						}
+						// a second clone, taken now, is a sibling of the first: it must not see what the first one got
+						sib := shared.(frugal.FContextWithEphemeralProperties).Clone()
+						noteOpid(sib, fmt.Sprintf("task%d/sibling-clone-of-shared#%d", t, i))
+						c.AddResponseHeader("first-clone-only", "y")
+						if hasResp(sib, "first-clone-only") || hasResp(shared, "first-clone-only") {
+							rc.Violate("C17", "clone-aliases-original", "response headers of sibling clones", "a response header added to one clone is visible in a sibling clone or in the original")
 						}
 					case k == 7: // clone independence on a private context (no concurrent writer: exact)
 						private.AddRequestHeader(fmt.Sprintf("h%d", i), fmt.Sprintf("x%d", i))
@@ -286,12 +304,12 @@ func ctxHarness(rc *RunCtx) {
 								rc.Violate("C17", "clone-aliases-original", "clone of clone", fmt.Sprintf("changes made after cloning reach a clone of the clone: %v %v %v %v", a, b, c, d))
 							}
 						}
-						_, o1 := private.RequestHeader(oc)
+						o1 := hasReq(private, oc)
 						_, o2 := pe.EphemeralProperty(oc)
-						_, o3 := private.ResponseHeader(oc)
+						o3 := hasResp(private, oc)
 						o1 = o1 || o3
-						_, c1 := cl.RequestHeader(oo)
-						_, c2 := cl.ResponseHeader(oo)
+						c1 := hasReq(cl, oo)
+						c2 := hasResp(cl, oo)
 						_, c3 := cl.EphemeralProperty(oo)
 						if o1 || o2 || c1 || c2 || c3 || private.Timeout() == 9999*time.Millisecond {
 							rc.Violate("C17", "clone-aliases-original", "private", fmt.Sprintf("changes leak between original and clone: %v %v %v %v %v", o1, o2, c1, c2, c3))
@@ -299,11 +317,28 @@ func ctxHarness(rc *RunCtx) {
 					case k == 8: // a context received from the wire
 						h := map[string]string{"_opid": fmt.Sprint(900000 + t*100 + i), "_cid": "w", "k0": "wire"}
 						body := EncodeBody(h, nil)
+						// the same protocol object goes on to read the next request of its connection while the first
+						// request's context is still in use (a handler that keeps it, a slow handler)
+						h2 := map[string]string{"_opid": fmt.Sprint(950000 + t*100 + i), "_cid": "w2", "k0": "wire2", "only2": "x", "_timeout": "777"}
+						body = append(body, EncodeBody(h2, nil)...)
 						in := pf.GetProtocol(&thrift.TMemoryBuffer{Buffer: bytes.NewBuffer(body)})
 						rctx, err := in.ReadRequestHeader()
 						if err != nil {
 							rc.Violate("INFRA", "read-request-header", "ctx", err.Error())
 							break
+						}
+						before := rctx.RequestHeaders()
+						if rctx2, err2 := in.ReadRequestHeader(); err2 == nil {
+							noteOpid(rctx2, fmt.Sprintf("task%d/received-second#%d", t, i))
+							if after := rctx.RequestHeaders(); !reflect.DeepEqual(before, after) || rctx.CorrelationID() != "w" {
+								rc.Violate("C17", "received-context-changed-by-next-request", "protocol.go", fmt.Sprintf("a context read off the wire had headers %v; after the same protocol read the next request it has %v", before, after))
+							}
+							rctx2.AddRequestHeader("second-only", "1")
+							if hasReq(rctx, "second-only") {
+								rc.Violate("C17", "received-context-changed-by-next-request", "protocol.go shared map", "a header added to the second received context shows on the first")
+							}
+						} else {
+							rc.Violate("INFRA", "read-request-header", "ctx second", err2.Error())
 						}
 						noteOpid(rctx, fmt.Sprintf("task%d/received#%d", t, i))
 						if v, _ := rctx.ResponseHeader("_opid"); v != h["_opid"] {
